@@ -48,6 +48,10 @@ OBLIGATIONS.update({"branch:power-lam": 200, "branch:yj-lam": 100,
                     "history": 50})
 
 
+LANDMARK_Y = [0.0, -0.0, 1.0, -1.0, 0.5, -0.5, 2.0, -2.0, 1e-8, -1e-8, 10.0, -10.0, 1e-300,
+              0.25, -3.0, 100.0]
+
+
 def call(fn, *a):
     with warnings.catch_warnings():
         warnings.simplefilter("ignore")
@@ -174,6 +178,45 @@ def run_config(ctx, case, npts=None):
               lambda: {"y": float(y[bady[0]]), "x": float(xb[bady[0]]),
                        "again": float(yb[bady[0]]), "rel_err": float(erry[bady[0]]),
                        "params": actual, "ctor": ctor})
+    # ---- transformed values chosen by the caller rather than produced by forward: the
+    # round numbers (0, +-1, +-0.5 ...). Every transform is increasing, so backward of a
+    # value lying between the images of two neighbouring sampled points lies between
+    # those points
+    o_ = np.argsort(x[adm], kind="stable")
+    xs_, ys_ = x[adm][o_], y[adm][o_]
+    if len(xs_) >= 2 and bool(np.all(np.isfinite(ys_))) and bool(np.all(np.diff(ys_) >= 0)):
+        y0 = np.array(LANDMARK_Y)
+        try:
+            xb0 = np.asarray(call(t.backward, y0.copy()), dtype=float)
+            yb0 = np.asarray(call(t.forward, xb0.copy()), dtype=float)
+        except Exception as e:
+            xb0 = None
+            ctx.check("landmark.runs", False, f"{name}|raises|landmark-y", case,
+                      {"exc": repr(e), "params": actual})
+        if xb0 is not None:
+            j_ = np.searchsorted(ys_, y0, side="left")
+            for k_, yv in enumerate(y0):
+                j = int(j_[k_])
+                if not (0 < j < len(ys_)) or not (ys_[j - 1] < yv < ys_[j]):
+                    continue
+                ctx.tag("landmark-y")
+                lo_, hi_ = float(xs_[j - 1]), float(xs_[j])
+                tol_ = 1e-6 * max(abs(lo_), abs(hi_), sx)     # the accuracy asked of a round trip
+                got_ = float(xb0[k_])
+                ctx.check("landmark.backward", math.isfinite(got_) and
+                          lo_ - tol_ <= got_ <= hi_ + tol_,
+                          f"{name}|backward-of-round-value", case,
+                          lambda: {"y": float(yv), "backward": got_,
+                                   "between": [lo_, hi_], "params": actual})
+                ctx.check("landmark.forward", math.isfinite(float(yb0[k_])) and
+                          float(ys_[j - 1]) - 1e-6 * max(1.0, abs(float(ys_[j - 1])))
+                          <= float(yb0[k_]) <=
+                          float(ys_[j]) + 1e-6 * max(1.0, abs(float(ys_[j]))),
+                          f"{name}|forward(backward(round-value))", case,
+                          lambda: {"y": float(yv), "backward": got_,
+                                   "forward": float(yb0[k_]),
+                                   "between": [float(ys_[j - 1]), float(ys_[j])],
+                                   "params": actual})
     nt = adm & (y != x)
     for i in np.where(nt)[0][:40]:
         ctx.nontrivial(name, repr(sorted(actual.items())), float(x[i]))
